@@ -65,6 +65,13 @@ func (c *varScope) getVarInfo(name string) *varInfo {
 	return nil
 }
 
+// isLocalOfCurrentScope checks whether the innermost scope has a local variable
+// with the given name.
+func (c *varScope) isLocalOfCurrentScope(name string) bool {
+	vi, ok := c.locals[len(c.locals)-1][name]
+	return ok && vi.refType == varLocal && vi.ctx == nil
+}
+
 // newVariable creates a new local variable or argument in the scope of the function.
 func (c *varScope) newVariable(t varType, name string) int {
 	var n int
